@@ -926,12 +926,13 @@ func (rule *RuleExpression) checkMatrix(m *Matrix) *ObjectType {
 
 	for _, combi := range m.Include.Combinations {
 		if combi.Expression != nil {
-			ty := rule.checkOneExpression(m.Include.Expression, "matrix combination at element of include section", "jobs.<job_id>.strategy")
+			ty := rule.checkOneExpression(combi.Expression, "matrix combination at element of include section", "jobs.<job_id>.strategy")
 			if ty == nil {
 				continue
 			}
 			if merged, ok := o.Merge(ty).(*ObjectType); ok {
-				o = merged
+				// Merge may return its argument as-is. Copy it since `o` is modified later
+				o = merged.DeepCopy().(*ObjectType)
 			} else {
 				o.Loose()
 			}
